@@ -56,6 +56,9 @@ pub enum Kind {
     PipeLast,
     /// inside a command substitution: `x=$(io ... REDIRS)` (runs in a child)
     CmdSubst,
+    /// first stage of a pipeline: `io ... REDIRS | relay 99` (runs in a child; what
+    /// it writes to descriptor 1 reaches the shell's stdout through the pipe)
+    PipeFirst,
 }
 
 #[derive(Clone, Debug, Serialize, Deserialize, PartialEq)]
@@ -173,7 +176,7 @@ pub fn generate(rng: &mut Rng, tier: Tier) -> Case {
         let last = i + 1 == n;
         let kind = match rng.below(if last { 24 } else { 21 }) {
             0..=1 => Kind::Builtin,
-            2 => *rng.pick(&[Kind::CaseC, Kind::WhileC, Kind::FuncDefRedir, Kind::PipeLast, Kind::CmdSubst]),
+            2 => *rng.pick(&[Kind::CaseC, Kind::WhileC, Kind::FuncDefRedir, Kind::PipeLast, Kind::CmdSubst, Kind::PipeFirst]),
             3..=4 => Kind::Dot,
             5..=6 => Kind::Func,
             7..=8 => Kind::Brace,
@@ -309,6 +312,10 @@ pub fn render(c: &Case) -> String {
                     }
                     Kind::PipeLast => format!("rc 0 | io {o} {rs}"),
                     Kind::CmdSubst => format!("x{k}=$(io {o} {rs})"),
+                    Kind::PipeFirst => {
+                        // here-document bodies follow the whole pipeline line
+                        format!("io {o} {rs} | relay 99")
+                    }
                     Kind::NotFound => format!("nosuch_cmd {rs}"),
                     Kind::Empty => rs.to_string(),
                     Kind::Exec => format!("exec {rs}"),
@@ -371,6 +378,8 @@ pub struct CmdExpect {
     /// persistent table after the command (exec) - fd -> desc id
     pub after: BTreeMap<i32, usize>,
     pub status_zero: bool,
+    /// the status is that of a later pipeline stage: not modelled
+    pub status_unknown: bool,
     /// the shell exits at this command
     pub exits: bool,
 }
@@ -584,11 +593,30 @@ impl Model {
 
     fn run(&mut self, kind: Kind, ops: &[IoOp], redirs: &[Redir]) -> CmdExpect {
         let mut fds = self.fds.clone();
-        let mut e = CmdExpect::default();
+        let mut e = CmdExpect {
+            status_unknown: kind == Kind::PipeFirst,
+            ..Default::default()
+        };
         // constructs that run the command in a child whose stdin/stdout is a
         // pipe, set up BEFORE the command's own redirections
         match kind {
-            Kind::CmdSubst => {
+            Kind::CmdSubst | Kind::PipeFirst => {
+                if kind == Kind::PipeFirst {
+                    // what the stage writes to the pipe is copied to the shell's
+                    // stdout by `relay` (if that is open): not modelled
+                    self.tainted.insert("<stdout>".into());
+                    if let Some(&d) = self.fds.get(&1) {
+                        match &self.descs[d].kind {
+                            DK::File(p) => {
+                                self.tainted.insert(p.clone());
+                            }
+                            DK::Anon(i) => {
+                                self.tainted.insert(format!("<anon{i}>"));
+                            }
+                            _ => {}
+                        }
+                    }
+                }
                 self.anon.push(Vec::new());
                 let id = self.anon.len() - 1;
                 self.open(&mut fds, 1, Desc { kind: DK::Anon(id), readable: false, writable: true, append: false, offset: 0 });
@@ -612,7 +640,8 @@ impl Model {
         self.taint_stderr(&self.fds.clone());
         e.redirs_ok = ok;
         if !ok {
-            e.status_zero = false;
+            // (the status of a pipeline is that of its last stage)
+            e.status_zero = kind == Kind::PipeFirst;
             e.exits = matches!(kind, Kind::Exec | Kind::Eval | Kind::Colon);
             e.after = self.fds.clone();
             return e;
@@ -936,7 +965,7 @@ fn check_model(c: &Case, exp: &Expect, obs: &Observed) -> Option<Viol> {
                 format!("after command {k}: {msg}\nobserved table: {}", table_str(s)),
             ));
         }
-        if (s.status == 0) != e.status_zero {
+        if !e.status_unknown && (s.status == 0) != e.status_zero {
             return Some((
                 "status".into(),
                 "status".into(),
